@@ -64,6 +64,12 @@ use tracing::{debug, error, info, info_span, trace, warn, Instrument};
 use self::envelopes::ReconEncoder;
 
 mod envelopes;
+
+/// Re-exports for the external verification harness (feature `verif`).
+#[cfg(feature = "verif")]
+pub mod verif_hooks {
+    pub use super::envelopes::ReconEncoder;
+}
 #[cfg(test)]
 mod tests;
 
